@@ -175,6 +175,44 @@ def attr_cases(tier, rng):
     return out
 
 
+TAGNAMES = ['if', 'elif', 'else', 'unless', 'in', 'with', 'let', 'try', 'except', 'finally', 'raise', 'return', 'call', 'var',
+            'comment', 'tree']
+CLASSNAMES = ['If', 'Else', 'Unless', 'In', 'InClass', 'With', 'Let', 'Try', 'Raise', 'ReturnTag', 'Call', 'Var', 'Comment',
+              'Tree', 'TreeTag', 'String', 'HTML', 'DT_If', 'commands', 'end', 'endif']
+
+
+def name_cases(tier, rng):
+    """tag names are matched exactly: case variants of the known tags, the names of the classes that implement them and near
+    misses are unknown tags (opening, continuation and closing position, the three spellings)"""
+    names = []
+    for n in TAGNAMES:
+        names += [n.capitalize(), n.upper(), n[0] + n[1:].upper(), n + 'x', n + '_', n[:-1] if len(n) > 2 else n + n, n + '2']
+    names += CLASSNAMES
+    out = []
+
+    def sp(style, name, args, kind):
+        a = (' ' + args) if args else ''
+        if style == 2:
+            return '%%(%s%s)%s' % (name, a, {'open': '[', 'close': ']', 'single': 's'}[kind])
+        if style == 1:
+            return ('<!--#/%s-->' % name) if kind == 'close' else '<!--#%s%s-->' % (name, a)
+        return ('</dtml-%s>' % name) if kind == 'close' else '<dtml-%s%s>' % (name, a)
+    for j, nm in enumerate(sorted(set(names))):
+        low = nm.lower()
+        for style in (0, 1, 2):
+            syn = 'epfs' if style == 2 else 'html'
+            srcs = ['a\n' + sp(style, nm, 'x', 'open') + 'yes' + sp(style, nm, '', 'close'),
+                    'a\n' + sp(style, nm, 'x', 'single') + '\nb']
+            if low in TAGNAMES:
+                srcs += ['a\n' + sp(style, nm, 'x', 'open') + 'yes' + sp(style, low, '', 'close'),
+                         'a\n\n' + sp(style, low, 'x', 'open') + 'yes\n' + sp(style, nm, '', 'close')]
+            srcs += ['top\n' + sp(style, 'if', 'a', 'open') + 'x\n' + sp(style, nm, '', 'open') + 'y' + sp(style, 'if', '', 'close'),
+                     sp(style, 'try', '', 'open') + 'x\n\n' + sp(style, nm, '', 'open') + 'y' + sp(style, 'try', '', 'close')]
+            for src in srcs:
+                out.append({'syn': syn, 'src': src, 'fam': 'names', 'canon': True})
+    return out
+
+
 BASES_H = [
     'a\n<dtml-if x>\n  yes <dtml-var v>\n<dtml-elif expr="y">\n  maybe\n<dtml-else>\n  no\n</dtml-if>\nz',
     '<dtml-in s size=2 orphan=0>\n <dtml-var sequence-item>\n<dtml-else>\n none\n</dtml-in>',
@@ -364,7 +402,8 @@ def depth_clause(V, tier):
 def main(tier):
     V = common.Verdicts(PID, tier)
     rng = random.Random(common.seed())
-    cases = seq_cases(tier, rng) + chain_cases(tier, rng) + attr_cases(tier, rng) + mutation_cases(tier, rng) + soup_cases(tier, rng)
+    cases = (seq_cases(tier, rng) + chain_cases(tier, rng) + attr_cases(tier, rng) + mutation_cases(tier, rng) + soup_cases(tier, rng)
+             + name_cases(tier, rng))
     seen, uniq = set(), []
     for c in cases:
         k = (c['syn'], c['src'])
@@ -408,7 +447,7 @@ def main(tier):
            'exhaustive': True, 'actions_covered': stats['coverage'], 'timing': V.notes.get('timing'),
            'rule': 'item sequences (16 items, all up to length %d + random to 8; dtml, SSI and EPFS spellings), attribute '
                    'lists per tag (all up to length %d), single mutations and every truncation of %d valid templates, '
-                   'random fragment soups; every search of the real scanner is compared with the machine\'s'
+                   'random fragment soups, case variants / class names / near misses of every tag name in every position; every search of the real scanner is compared with the machine\'s'
                    % (3 if tier == 'quick' else 4, 2 if tier == 'quick' else 3, len(BASES_H) + len(BASES_E)),
            'samples': [{'syn': cases[i]['syn'], 'source': cases[i]['src']} for i in (7, len(cases) // 3, len(cases) // 2, len(cases) - 5)]}
     return V.finish(cov, assumptions=[
